@@ -202,8 +202,13 @@ def c12_fire(ctx, carrier, step_ft, kw, n, rmax, ulo, uhi):
         return [p.Wind(U.MPH(segs[i][0] * speed_scale), U.Radian(-segs[i][1] if mirror else segs[i][1]), U.Foot(u[i])) for i in order]
     R, S = U.Foot(rmax), U.Foot(step_ft)
 
-    def run(ws, spy_sock=False):
+    used = []
+
+    def run(ws, spy_sock=False, reuse=False):
         calc, shot = carriers.make(carrier, step_ft, ws, **kw)
+        if reuse:
+            calc = used[0]           # the calculator of the first run, with a newly built (value-equal) shot and wind list
+        used.append(calc)
         calls = []
         orig = tc._WindSock.vector_for_range
 
@@ -220,6 +225,9 @@ def c12_fire(ctx, carrier, step_ft, kw, n, rmax, ulo, uhi):
         return rows, spy, calls, shot
 
     base_rows, spy, calls, shot = run(winds(range(n)))
+    # (0) the same winds again on the calculator that has just flown through them: nothing is left over from the first shot
+    again_rows, _, _, _ = run(winds(range(n)), reuse=True)
+    ctx.check('same_winds_again_on_a_used_calculator', _rows_same(base_rows, again_rows))
     # (a) input order
     rev_rows, _, _, _ = run(winds(list(reversed(range(n)))))
     distinct = ctx.all([u[i] != u[j] for i in range(n) for j in range(i)])
